@@ -130,6 +130,19 @@ def _translate(fn: ast.FunctionDef, default: str, effects_order=(), **kw) -> str
         return f"{default} /- not translated: {str(e)[:100].replace('-/', '')} -/"
 
 
+def _translate_codes(fn: ast.FunctionDef, codes: Dict[str, str], default: str, **kw) -> str:
+    """like `_translate`, for a method whose paths end in one of several calls: every `return <x>` becomes the code of <x>"""
+    def leaf(value, vals, eff):
+        c = _lookup(codes, "None" if value is None else ast.unparse(value))
+        if c is None:
+            raise NotTranslated(f"return outside the vocabulary: {ast.unparse(value)}")
+        return c
+    try:
+        return _sym(_body(fn), {}, frozenset(), Cfg(leaf=leaf, **kw))
+    except NotTranslated as e:
+        return f"{default} /- not translated: {str(e)[:100].replace('-/', '')} -/"
+
+
 # ------------------------------------------------------------------------------------------------------ pre_timestep
 _STATE_ATOMS = {
     "self.operating_state != ServiceOperatingState.RUNNING": "(!running)",
@@ -290,6 +303,17 @@ def emit() -> str:
                                 "username not in self.users": "(!found)", "self.users[username].disabled": "disabled",
                                 "self._is_last_admin(username)": "lastAdmin"},
                          effects={"self.users[username].disabled = True": "disabled"})
+    _run = {"self.operating_state != ServiceOperatingState.RUNNING": "(!running)", "self.operating_state == ServiceOperatingState.RUNNING": "running",
+            "self.operating_state is not ServiceOperatingState.RUNNING": "(!running)", "self.operating_state is ServiceOperatingState.RUNNING": "running",
+            "self._can_perform_action()": "(nodeOn && running)"}
+    term_login = _translate_codes(find_method(term, "login"),
+                                  {"None": "0", "self._send_remote_login(username=username, password=password, ip_address=ip_address)": "1",
+                                   "self._process_local_login(username=username, password=password)": "2"}, "0",
+                                  atoms=dict(_run, **{"ip_address": "hasIp", "ip_address is not None": "hasIp", "ip_address is None": "(!hasIp)"}))
+    proc_local = _translate_codes(find_method(term, "_process_local_login"),
+                                  {"None": "false", "self._create_local_connection(connection_uuid=connection_uuid, session_id='Local_Connection')": "true"},
+                                  "false", atoms={"connection_uuid is None": "(!granted)", "connection_uuid is not None": "granted"},
+                                  defs={"self.parent.user_session_manager.local_login(username=username, password=password)": "granted"})
     wrappers = []
     for m in ("local_login", "remote_login"):
         wrappers.append((m, "; ".join(ast.unparse(x) for x in _body(find_method(usm, m)))))
@@ -321,6 +345,10 @@ def remoteSessionLimitReached (len mx : Nat) : Bool := {limit}
 /-- `UserSessionManager._login`: (a session id is returned, a remote session was stored) -/
 def login (can auth isLocal hasLoc otherUser limit : Bool) : Bool × Bool := {login}
 def loginWrappers : List (String × String) := {_lean_pairs(wrappers)}
+/-- `Terminal.login`: 0 = refused (`None`), 1 = `_send_remote_login(…)`, 2 = `_process_local_login(…)` -/
+def terminalLogin (nodeOn running hasIp : Bool) : Nat := {term_login}
+/-- `Terminal._process_local_login` hands out a connection object (`granted` = `local_login` returned a session id) -/
+def processLocalLogin (granted : Bool) : Bool := {proc_local}
 /-- `UserManager._is_last_admin` over `admins` -/
 def isLastAdmin (isAdmin : Bool) (nAdmins : Nat) : Bool := {last_admin}
 def adminsBody : List String := {_lean_list(admins)}
